@@ -43,6 +43,10 @@ enum Op {
     Finished(u8),
     /// prune_paths()
     Prune,
+    /// the requester of the oldest still-unanswered resolve goes away (drops its receiver); the other pending
+    /// requests must still be answered exactly once (seeded change C22-seed62: answering stopped at the first
+    /// requester that had gone away)
+    Cancel,
 }
 
 fn ip(port: u16) -> TransportAddr {
@@ -92,6 +96,7 @@ fn all_ops() -> Vec<Op> {
         v.push(Op::Finished(f));
     }
     v.push(Op::Prune);
+    v.push(Op::Cancel);
     v
 }
 
@@ -104,6 +109,9 @@ enum Answer {
     ErrOther,
     /// the sender was dropped without an answer
     Dropped,
+    /// the harness dropped this requester's receiver (no answer can be observed; still queued in the real object
+    /// until the next emission)
+    Cancelled,
 }
 
 struct Req {
@@ -200,6 +208,7 @@ impl Run {
             Op::Abandon(_) | Op::AbandonBulk => {}
             Op::Finished(_) => finished = true,
             Op::Prune => prunes = true,
+            Op::Cancel => {}
         }
         if inserted_any {
             self.has_path = true;
@@ -224,6 +233,14 @@ impl Run {
             Op::Finished(1) => self.h.address_lookup_finished(Err(n0_error::e!(AddressLookupFailed::NoResults { errors: vec![] }))),
             Op::Finished(_) => self.h.address_lookup_finished(Err(n0_error::e!(AddressLookupFailed::NoServiceConfigured))),
             Op::Prune => self.h.prune_paths(),
+            Op::Cancel => {
+                if let Some(r) = self.reqs.iter_mut().find(|r| r.seen == Answer::Pending) {
+                    let (tx, closed) = oneshot::channel();
+                    drop(tx);
+                    drop(std::mem::replace(&mut r.rx, closed));
+                    r.seen = Answer::Cancelled;
+                }
+            }
         }
         // ---- model: expected answers of this step ----
         for r in self.reqs.iter_mut() {
@@ -251,6 +268,7 @@ impl Run {
             }
             let want = r.model;
             let ok = match (want, now) {
+                (_, Answer::Cancelled) => true,
                 (None, Answer::Pending) => true,
                 (Some(true), Answer::Ok) => true,
                 (Some(false), Answer::ErrNoResults | Answer::ErrNoService | Answer::ErrOther) => true,
@@ -297,7 +315,7 @@ impl Run {
                 ));
             }
         }
-        if self.h.resolve_requests_is_empty() != self.reqs.iter().all(|r| r.seen != Answer::Pending) {
+        if self.h.resolve_requests_is_empty() != self.reqs.iter().all(|r| r.model.is_some()) {
             d.push((None, format!("after {op:?}: resolve_requests_is_empty() disagrees with the unanswered receivers")));
         }
         // ---- classes ----
@@ -312,6 +330,7 @@ impl Run {
             Op::Finished(1) => "lookup-finished-noresults",
             Op::Finished(_) => "lookup-finished-noservice",
             Op::Prune => "prune",
+            Op::Cancel => "cancel",
         };
         let _ = new_req;
         let class = format!(
@@ -347,7 +366,9 @@ impl Run {
         // Why this is enough: future behaviour of RemotePathState depends on the path map (addresses, status, relative
         // order of abandon times — pruning only compares them) and on the queue of unanswered senders (all are treated
         // alike; only their number matters). `sources` and metrics are never read by the operations explored.
-        k.push_str(&format!("|pending={}|has_path={}", self.reqs.iter().filter(|r| r.seen == Answer::Pending).count(), self.has_path));
+        // the queue of unanswered senders as the real object holds it: live (L) and cancelled (C) requesters in order
+        let queue: String = self.reqs.iter().filter(|r| r.model.is_none()).map(|r| if r.seen == Answer::Cancelled { 'C' } else { 'L' }).collect();
+        k.push_str(&format!("|queue={queue}|has_path={}", self.has_path));
         k
     }
 }
